@@ -1,5 +1,7 @@
 package luagen
 
+import "verifh/lib"
+
 // Wave-5 shapes of C02 (calls pass/return exactly the prescribed values).
 //
 // Both shapes attack the same family: what a call passes or receives must depend on the LOGICAL
@@ -214,7 +216,7 @@ func (g *Gen) argFreshness(d int) []Stmt {
 	withSurplus := func(k int) []Expr {
 		as := fixed(np)
 		for i := 0; i < k; i++ {
-			as = append(as, []Expr{str("s1"), num(8), &Nil{}, &False{}}[g.R.Intn(4)])
+			as = append(as, []Expr{str("s1"), num(8), &True{}, &False{}}[g.R.Intn(4)])
 		}
 		return as
 	}
@@ -259,11 +261,13 @@ func (g *Gen) argFreshness(d int) []Stmt {
 	// step 1: a zero-surplus call that mutates; then a mixed history
 	out = append(out, callVia(mu, fixed(g.R.Range(0, np))), callVia(rd, fixed(g.R.Range(0, np))))
 	for i, k := 0, g.R.Range(3, 6); i < k; i++ {
-		switch g.R.Pick(35, 45, 20) {
+		switch g.R.Pick(32, 42, 18, 8) {
 		case 0:
 			out = append(out, callVia(mu, args()))
 		case 1:
 			out = append(out, callVia(rd, args()))
+		case 3: // the owner fails after writing to its table; the error is caught
+			out = append(out, emit(call("pcall", &Func{Vararg: true, Body: []Stmt{set(at("arg", num(1)), str("pe")), set(n(), num(7)), &CallS{E: call("error", &Table{})}}})))
 		default:
 			out = append(out, emit(call(idf)), emit(call(idf, num(1))), emit(call(idf)))
 		}
@@ -286,4 +290,22 @@ func (g *Gen) w5c02(d int) []Stmt {
 		return g.tableHistoryCalls(d)
 	}
 	return g.argFreshness(d)
+}
+
+// W5C02Program: a program made of the two wave-5 shapes only (a dedicated generation mode of C02, so
+// that these histories are not lost when an unrelated construct of a big program leaves the fragment).
+func W5C02Program(r *lib.Rand) []Stmt {
+	g := NewGen(r, CoreFeatures())
+	g.push()
+	g.vararg = append(g.vararg, true)
+	var body []Stmt
+	for i, k := 0, r.Range(2, 3); i < k; i++ {
+		if r.Bool() {
+			body = append(body, g.tableHistoryCalls(2)...)
+		} else {
+			body = append(body, g.argFreshness(2)...)
+		}
+	}
+	g.pop()
+	return body
 }
